@@ -67,6 +67,8 @@ pub enum Flavour
     Exclusive,
     /// `&mut World` system returning `WarnErr`.
     ExclusiveWarn,
+    /// Non-exclusive system all of whose parameters (including `Commands`) sit inside one `ParamSet`.
+    InParamSet,
 }
 
 /// How an instance comes into existence.
@@ -153,6 +155,9 @@ pub enum WOp
     DropSysRc(u8),
     /// `Commands::insert_system(slot entity, callee)` into spawned-system slot k
     InsertSys(u8, Slot, u8),
+    /// Bulk auto-despawn (C10): spawn `n` fresh entities, prepare a signal for each (every `m`-th gets one extra clone that is
+    /// kept until the next `Gc` step, when it is dropped *after* that collection), drop the rest at once.
+    SigBulk(u16, u8),
     /// Component accessor called from a one-shot system (C14): which accessor, entity slot, component, new value.
     Acc(AccKind, Slot, C, u8),
     /// Resource accessor / world-level resource API (C14).
@@ -263,6 +268,8 @@ pub enum Op
     WrRemove(u8, Vec<Trig>),
     WrRun(u8),
     EwrAdd(u8, Slot, u32),
+    /// Same through `EntityCommands::add_world_reactor::<T>(data)`.
+    EwrAddEc(u8, Slot, u32),
     /// Remove the triggers selected by the bit mask (bit i = i-th trigger of the reactor's bundle) for a slot.
     EwrRemove(u8, Slot, u8),
     /// One `remove` call whose bundle names several entities: (slot, trigger mask) each.
